@@ -500,9 +500,53 @@ def c_string_default(ex, st, callee, a): return [(None, StringVal(''))]
 
 
 # ----------------------------------------------------------------------------- time / iso8601
+rfc3339_off = Function('rfc3339_offset_seconds', S, I)
+
+
 @contract(r'^OffsetDateTime::now_utc$')
 def c_now(ex, st, callee, a):
-    t = Int('now%d' % next(fresh)); st.log.append(('now', t)); st.pc.append(And(t > 0, t < 2**70)); return [(None, ('instant', t))]
+    t = Int('now%d' % next(fresh)); st.log.append(('now', t)); st.pc.append(And(t > 0, t < 2**70)); return [(None, ('instant', t, IntVal(0)))]
+
+
+def _off(v): return v[2] if len(v) > 2 else IntVal(0)
+
+
+@contract(r'^OffsetDateTime::replace_offset$')
+def c_replace_offset(ex, st, callee, a):
+    """keeps the local date-time, swaps the offset: the instant moves by the difference of the offsets"""
+    v = deref(st, a[0]); o = deref(st, a[1]); new = o[1] if isinstance(o, tuple) and o[0] == 'utcoffset' else None
+    if isinstance(o, tuple) and o[0] == 'extern_const' and o[1].endswith('UtcOffset::UTC'): new = IntVal(0)
+    if new is None: raise Unsupported('replace_offset(%s)' % str(o)[:40])
+    return [(None, ('instant', v[1] + (_off(v) - new) * 10**9, new))]
+
+
+@contract(r'^OffsetDateTime::to_offset$')
+def c_to_offset(ex, st, callee, a):
+    v = deref(st, a[0]); o = deref(st, a[1]); new = IntVal(0) if (isinstance(o, tuple) and o[0] == 'extern_const') else (o[1] if isinstance(o, tuple) and o[0] == 'utcoffset' else None)
+    if new is None: raise Unsupported('to_offset(%s)' % str(o)[:40])
+    return [(None, ('instant', v[1], new))]
+
+
+@contract(r'^OffsetDateTime::unix_timestamp$')
+def c_unix_ts(ex, st, callee, a):
+    v = deref(st, a[0]); q = Int('unix_ts%d' % next(fresh)); st.pc.append(And(q * 10**9 <= v[1], v[1] < (q + 1) * 10**9)); return [(None, q)]
+
+
+@contract(r'^OffsetDateTime::unix_timestamp_nanos$')
+def c_unix_ns(ex, st, callee, a): return [(None, deref(st, a[0])[1])]
+
+
+@contract(r'^(time::)?(Signed)?Duration::(seconds|minutes|days|weeks|milliseconds)$')
+def c_duration(ex, st, callee, a):
+    unit = {'seconds': 10**9, 'minutes': 60 * 10**9, 'days': 86400 * 10**9, 'weeks': 7 * 86400 * 10**9, 'milliseconds': 10**6}[callee.split('::')[-1]]
+    return [(None, ('duration', a[0] * unit))]
+
+
+@contract(r'^<OffsetDateTime as Sub<')
+def c_instant_sub(ex, st, callee, a):
+    x, y = deref(st, a[0]), deref(st, a[1])
+    if y[0] == 'duration': return [(None, ('instant', x[1] - y[1], _off(x)))]
+    return [(None, ('duration', x[1] - y[1]))]
 
 
 @contract(r'^SignedDuration::hours$', r'^time::Duration::hours$', r'^Duration::hours$')
@@ -510,7 +554,10 @@ def c_hours(ex, st, callee, a): return [(None, ('duration', a[0] * 3600 * 10**9)
 
 
 @contract(r'^<OffsetDateTime as Add<')
-def c_instant_add(ex, st, callee, a): return [(None, ('instant', a[0][1] + a[1][1]))]
+def c_instant_add(ex, st, callee, a):
+    x, y = deref(st, a[0]), deref(st, a[1])
+    if x[0] == 'duration': x, y = y, x
+    return [(None, ('instant', x[1] + y[1], _off(x)))]
 
 
 @contract(r'^OffsetDateTime::format::<Rfc3339>$')
@@ -521,13 +568,13 @@ def c_format3339(ex, st, callee, a):
 @contract(r'^OffsetDateTime::parse::<Rfc3339>$')
 def c_parse3339(ex, st, callee, a):
     s_ = as_str(st, a[0]); st.log.append(('rfc3339_parse', s_))
-    return [(rfc3339_ok(s_), ok(('instant', rfc3339(s_)))), (Not(rfc3339_ok(s_)), err(adt('TimeParseError', None)))]
+    return [(rfc3339_ok(s_), ok(('instant', rfc3339(s_), rfc3339_off(s_)))), (Not(rfc3339_ok(s_)), err(adt('TimeParseError', None)))]
 
 
-@contract(r'^<OffsetDateTime as PartialOrd>::(le|lt|ge|gt)$')
+@contract(r'^<OffsetDateTime as PartialOrd>::(le|lt|ge|gt)$', r'^<OffsetDateTime as PartialEq>::(eq|ne)$')
 def c_instant_cmp(ex, st, callee, a):
     x, y = deref(st, a[0])[1], deref(st, a[1])[1]; op = callee[-3:-1] if False else callee.split('::')[-1]
-    return [(None, {'le': x <= y, 'lt': x < y, 'ge': x >= y, 'gt': x > y}[op])]
+    return [(None, {'le': x <= y, 'lt': x < y, 'ge': x >= y, 'gt': x > y, 'eq': x == y, 'ne': x != y}[op])]
 
 
 @contract(r'^<OffsetDateTime as ToString>::to_string$')
